@@ -310,7 +310,82 @@ def default_dir_scenario():
             out.append(('TestChain (default directory): value differs from the real chain once the chain object is gone', f'helper {got}, real chain {real}'))
     except Exception as e:  # noqa
         out.append(('TestChain (default directory) fails once the chain object is gone', f'{type(e).__name__}: {str(e)[:200]}'))
-    out += several_helpers_scenario() + callable_mock_scenario()
+    out += several_helpers_scenario() + callable_mock_scenario() + renamed_and_mutable_defaults_scenario()
+    return out
+
+
+def renamed_and_mutable_defaults_scenario():
+    """(a) a parameter with `name_in_config` whose task-side NAME is the config key of another task's parameter; (b) a mutable default that run()
+    extends in place, computed several times in one process: the helper yields what a fresh real chain yields"""
+    from taskchain import Config, Parameter, Task
+    from taskchain.utils.testing import TestChain, create_test_task
+
+    class Thumb(Task):
+        class Meta:
+            parameters = [Parameter('size', name_in_config='thumbnail_size', default=64)]
+
+        def run(self, size) -> int:
+            return size
+
+    class Crop(Task):
+        class Meta:
+            parameters = [Parameter('size', default=5)]
+            input_tasks = [Thumb]
+
+        def run(self, size, thumb) -> list:
+            return [size, thumb]
+
+    class Required(Task):
+        class Meta:
+            parameters = [Parameter('size', name_in_config='required_size')]
+
+        def run(self, size) -> int:
+            return size
+
+    class Vocab(Task):
+        class Meta:
+            parameters = [Parameter('special', default=['<pad>', '<unk>']), Parameter('extra', default={'k': [1]})]
+
+        def run(self, special, extra) -> list:
+            vocabulary = special
+            vocabulary += ['a', 'b']
+            extra['k'].append(2)
+            return [vocabulary, extra]
+
+    out = []
+    try:
+        base = scratch.fresh('c19r')
+        real = Config(Path(base) / 'real', name='r', data={'tasks': [Thumb, Crop], 'size': 10}).chain()
+        want = [real['thumb'].value, real['crop'].value]
+        tc = TestChain([Thumb, Crop], parameters={'size': 10})
+        got = [tc['thumb'].value, tc['crop'].value]
+        single = create_test_task(Thumb, parameters={'size': 10}).value
+        if got != want or single != want[0]:
+            out.append(('helper takes a parameter value from a config key that is not the parameter\'s name in the config', f'TestChain {got}, create_test_task {single}, real chain {want}'))
+        try:
+            Config(Path(base) / 'real2', name='r', data={'tasks': [Required], 'size': 1}).chain()
+            real_err = None
+        except Exception as e:  # noqa
+            real_err = type(e).__name__
+        try:
+            v = create_test_task(Required, parameters={'size': 1}).value
+            helper_err = None
+        except Exception as e:  # noqa
+            helper_err = type(e).__name__
+        if (real_err is None) != (helper_err is None):
+            out.append(('a missing required parameter is reported by the real chain but not by the helper', f'real chain: {real_err}, helper: {helper_err}'))
+        # (b)
+        want_v = [['<pad>', '<unk>', 'a', 'b'], {'k': [1, 2]}]
+        vals = []
+        vals.append(Config(Path(base) / 'v0', name='r', data={'tasks': [Vocab]}).chain()['vocab'].value)
+        vals.append(create_test_task(Vocab).value)
+        vals.append(TestChain([Vocab])['vocab'].value)
+        vals.append(Config(Path(base) / 'v1', name='r', data={'tasks': [Vocab]}).chain()['vocab'].value)
+        if any(v != want_v for v in vals):
+            out.append(('a default that run() changed in place reaches later task objects of the class', f'real, create_test_task, TestChain, real: {vals}'))
+        scratch.drop(base)
+    except Exception as e:  # noqa
+        out.append(('renamed parameters / mutable defaults scenario fails', f'{type(e).__name__}: {str(e)[:200]}'))
     return out
 
 
